@@ -42,6 +42,10 @@ use std::{
 mod protocol;
 mod x25519_spec;
 
+#[cfg(litep2p_verif)]
+#[path = "../../verif/c02.rs"]
+pub(crate) mod verif_c02;
+
 mod handshake_schema {
     include!(concat!(env!("OUT_DIR"), "/noise.rs"));
 }
